@@ -36,6 +36,7 @@ class LxmlEventHandler(XmlHandler):
                 EVENTS,
                 recover=True,
                 remove_comments=True,
+                remove_pis=True,
                 load_dtd=self.parser.config.load_dtd,
             )
 
